@@ -1522,7 +1522,9 @@ class Parameters:
             total_potential_increase + 1e-9
         )  # Adding small value to avoid division by zero
         adjusted_biofuel_increase = allowed_increase * proportion_biofuel
-        adjusted_feed_increase = allowed_increase - adjusted_biofuel_increase
+        adjusted_feed_increase = np.minimum(
+            allowed_increase - adjusted_biofuel_increase, potential_feed_increase
+        )
 
         adjusted_biofuel_increase = np.maximum(
             np.zeros(len(adjusted_biofuel_increase)), adjusted_biofuel_increase
